@@ -12,6 +12,11 @@
 //
 // Part B (oracle; real `buf` binary built from the working tree): encodings x compressions x
 // flags round trip, source packagings, lint / breaking / build --path on image vs sources.
+// Part B2 (partb2.go): the CHECK CONFIGURATION an image input gets: buf.yaml v1beta1 / v1 / v2 x
+// {no / empty / use+except / ignore / ignore_only / comment ignores / options / disabled / invalid}
+// lint sections x {no / empty / use / except / ignore / ignore_only / ignore_unstable_packages}
+// breaking sections x {buf.yaml of the working directory, --config inline, --config file};
+// lint with --path/--exclude-path on the image; module in a sub-directory; sections on the module.
 //
 // Part C (model correspondence): stripBufExtensionField observed through
 // bufimage.NewImageFile + ImageToProtoImage on descriptors with crafted unknown fields, and the
